@@ -296,6 +296,8 @@ let loop_main unfixed =
   let lc = if unfixed then l_clean_orig else l_clean in
   let l = ref (l_init (n "1") false) in
   let inbox = ref [] and dropped = ref false and next_sp = ref None and reported = ref 0 in
+  (* virtual time (ms), pending_throttle, broker writes scheduled with NETAT: (time, packets) *)
+  let now = ref 0 and throttle = ref 0 and sched = ref [] in
   let wire_delta () =
     let w = l_wire !l in
     let d = drop !reported w in
@@ -321,9 +323,10 @@ let loop_main unfixed =
   iter_lines (fun line ->
       match split_ws line with
       | [] -> ()
-      | [ "LNEW"; max; manual ] ->
+      | "LNEW" :: max :: manual :: rest ->
           l := l_init (n max) (manual = "1");
           inbox := []; dropped := false; next_sp := None; reported := 0;
+          now := 0; sched := []; throttle := (match rest with [ x ] -> int_of_string x | _ -> 0);
           print_endline "NEW"
       | "SEND" :: r ->
           let req =
@@ -336,7 +339,14 @@ let loop_main unfixed =
           in
           (match stp !l (UserSend req) with Stepped l' -> l := l' | _ -> ());
           print_endline "OK"
-      | [ "ACCEPT"; sp ] -> next_sp := Some (sp = "1"); inbox := []; dropped := false; print_endline "OK"
+      | [ "ACCEPT"; sp ] -> next_sp := Some (sp = "1"); inbox := []; dropped := false; sched := []; print_endline "OK"
+      | "NETAT" :: delay :: _ ->
+          if l_connected !l && not !dropped then begin
+            let rest = String.concat " " (List.tl (List.tl (split_ws line))) in
+            let pk = List.concat_map (fun part -> match split_ws part with [] -> [] | toks -> [ parse_packet toks ]) (String.split_on_char ';' rest) in
+            sched := List.stable_sort (fun (a, _) (b, _) -> compare a b) (!sched @ [ (!now + int_of_string delay, pk) ])
+          end;
+          print_endline "OK"
       | "NET" :: _ ->
           if l_connected !l && not !dropped then begin
             let parts = String.split_on_char ';' (String.sub line 3 (String.length line - 3)) in
@@ -344,7 +354,9 @@ let loop_main unfixed =
           end;
           print_endline "OK"
       | [ "DROP" ] -> dropped := true; print_endline "OK"
-      | [ "POLL" ] ->
+      | "POLL" :: _ | "POLLT" :: _ ->
+          let ms = (match split_ws line with [ "POLLT"; x ] -> int_of_string x | _ -> 1) in
+          let limit = !now + ms in
           if not (l_connected !l) then begin
             match !next_sp with
             | Some sp -> (
@@ -358,11 +370,7 @@ let loop_main unfixed =
           end
           else if v4_events (l_st !l) <> [] then yield_one "NOEVENT"
           else begin
-            let net_ready = !inbox <> [] || !dropped in
-            let take_ready = te !l in
-            if net_ready && take_ready then print_endline "AMBIG"
-            else if take_ready then arm TakeRequest
-            else if net_ready then begin
+            let run_net () =
               let batch, rest = l_readb_take !inbox in
               inbox := rest;
               if List.length batch < 9 && !dropped then arm (NetAbort batch)
@@ -376,8 +384,45 @@ let loop_main unfixed =
                 | _ -> arm (Net batch)
               end
               else arm (Net batch)
+            in
+            (* deliver the broker writes that are due now *)
+            let deliver_due () =
+              let due, later = List.partition (fun (t, _) -> t <= !now) !sched in
+              sched := later;
+              List.iter (fun (_, pk) -> inbox := !inbox @ pk) due
+            in
+            deliver_due ();
+            let net_ready = !inbox <> [] || !dropped in
+            let take_ready = te !l in
+            (* a retransmission from pending waits pending_throttle first (the sleep restarts with every poll) *)
+            let take_wait = if take_ready && l_pending !l <> [] then !throttle else 0 in
+            if net_ready && take_ready && take_wait = 0 then print_endline "AMBIG"
+            else if net_ready then begin
+              if take_ready then ignore (stp !l TakeCancelled);
+              run_net ()
             end
-            else Printf.printf "IDLE WIRE[%s]\n%!" (wire_delta ())
+            else if take_ready && take_wait = 0 then arm TakeRequest
+            else begin
+              let ts = match !sched with (t, _) :: _ -> t | [] -> max_int in
+              let tk = if take_ready then !now + take_wait else max_int in
+              if ts >= limit && tk >= limit then begin
+                (* nothing completes within the bound: the poll is dropped; a throttle wait in progress is cancelled *)
+                if (ts = limit && ts <> max_int) || (tk = limit && tk <> max_int) then print_endline "AMBIG"
+                else begin
+                  if take_ready then ignore (stp !l TakeCancelled);
+                  now := limit;
+                  Printf.printf "IDLE WIRE[%s]\n%!" (wire_delta ())
+                end
+              end
+              else if ts = tk then print_endline "AMBIG"
+              else if ts < tk then begin
+                (* a broker packet arrives during the throttle wait: select() drops the request arm *)
+                now := ts; deliver_due ();
+                if take_ready then ignore (stp !l TakeCancelled);
+                run_net ()
+              end
+              else begin now := tk; arm TakeRequest end
+            end
           end
       | [ "FINISH" ] -> (
           match lc !l with
@@ -432,6 +477,48 @@ let ka_main unfixed =
           done;
           let f l = String.concat " " (List.rev_map string_of_int l) in
           Printf.printf "KA C@0 PINGS[%s] RESPS[%s] END %s\n" (f !pings) (f !resps) (match !fin with Some x -> x | None -> "?")
+      | [ "KAR"; ver; ka_ms; first; horizon ] ->
+          let v5 = ver.[0] = '5' in
+          let stp = if v5 && unfixed then k_step_v5_orig else k_step in
+          let ka = int_of_string ka_ms and horizon = int_of_string horizon in
+          let kan = n_of_int ka in
+          let drop_at = if String.length first > 5 && String.sub first 0 5 = "drop@" then Some (int_of_string (String.sub first 5 (String.length first - 5))) else None in
+          let s = ref (fst (stp kan k_init (Connect (n_of_int 0)))) in
+          let pings1 = ref [] and err1 = ref None in
+          (* connection 1: the broker never answers *)
+          while !err1 = None do
+            let d = match k_deadline !s with Some d -> int_of_n d | None -> max_int in
+            (match drop_at with
+             | Some x when x < d -> s := fst (stp kan !s (ConnFail (n_of_int x))); err1 := Some ("ConnectionAborted", x)
+             | _ ->
+                 let s', outs = stp kan !s (Tick (n_of_int d)) in
+                 s := s';
+                 List.iter (function
+                   | PingReqAt x -> pings1 := int_of_n x :: !pings1
+                   | ErrAwait x -> err1 := Some ("AwaitPingResp", int_of_n x)
+                   | ErrCollision x -> err1 := Some ("CollisionTimeout", int_of_n x)) outs)
+          done;
+          let ek, et = match !err1 with Some x -> x | None -> ("?", 0) in
+          (* connection 2, at once: every PINGREQ answered after ka/8 *)
+          s := fst (stp kan !s (Connect (n_of_int et)));
+          let pings2 = ref [] and due = ref [] and fin = ref None in
+          while !fin = None do
+            let d = match k_deadline !s with Some d -> int_of_n d | None -> max_int in
+            let r = match !due with x :: _ -> x | [] -> max_int in
+            let t = min d r in
+            if t > horizon then fin := Some (Printf.sprintf "HORIZON@%d" horizon)
+            else if t = d then begin
+              let s', outs = stp kan !s (Tick (n_of_int t)) in
+              s := s';
+              List.iter (function
+                | PingReqAt x -> pings2 := int_of_n x :: !pings2; due := !due @ [ int_of_n x + ka / 8 ]
+                | ErrAwait x -> fin := Some (Printf.sprintf "ERROR AwaitPingResp@%d" (int_of_n x))
+                | ErrCollision x -> fin := Some (Printf.sprintf "ERROR CollisionTimeout@%d" (int_of_n x))) outs
+            end
+            else begin due := List.tl !due; s := fst (stp kan !s (PingResp (n_of_int t))) end
+          done;
+          let f l = String.concat " " (List.rev_map string_of_int l) in
+          Printf.printf "KAR PINGS1[%s] ERR1 %s@%d C2@%d PINGS2[%s] END %s\n" (f !pings1) ek et et (f !pings2) (match !fin with Some x -> x | None -> "?")
       | [ "KACONN"; _; tm; h ] ->
           let h = if h = "never" then None else Some (n h) in
           (match k_poll_connect (n_of_int (int_of_string tm * 1000)) h with
